@@ -24,5 +24,6 @@ def generate(scratch, d):
     from . import regexgen
     RESULT['regex'] = regexgen.generate(scratch.dir, d, CONFIG['regex_eq_lengths'], CONFIG['regex_overrides'])
     names = versions(scratch)
-    with open(os.path.join(d, 'versions.rs'), 'w') as f:
-        f.write('pub const ALL_VERSIONS: [AutosarVersion; %d] = [%s];\n' % (len(names), ', '.join('AutosarVersion::' + n for n in names)))
+    for fn in ('versions.rs', 'versions_main.rs'):
+        with open(os.path.join(d, fn), 'w') as f:
+            f.write('pub const ALL_VERSIONS: [AutosarVersion; %d] = [%s];\n' % (len(names), ', '.join('AutosarVersion::' + n for n in names)))
